@@ -41,6 +41,12 @@ def jobs(tier, seed):
         for f in modes.FOREIGN:
             js.append({"mode": "reject", "site": site, "foreign": f})
     js.append({"mode": "names"})
+    # the same argument is offered again (third attempt): a verdict remembered from an earlier attempt must still be the right one
+    js.append({"mode": "names", "attempts": 3})
+    js += [dict(j, attempts=3) for j in param_jobs()]
+    for site in SITES_CTOR:
+        for f in modes.FOREIGN[::2]:
+            js.append({"mode": "reject", "site": site, "foreign": f, "attempts": 2})
     if tier == "thorough":
         js.append({"mode": "names", "maxlen": 14})
     js.append({"mode": "param", "what": "NthPower", "sort": "real", "twin": "accept-all"})
